@@ -72,6 +72,7 @@ Inductive op :=
 | OInvalidate (k : N)
 | OClear
 | OMultiGet (ks : list N)
+| OMultiGetAsync (ks : list N)       (* AsyncCache::multiget: calls policy.on_access directly, no batching *)
 | OMultiInsert (items : list (N * N * N))
 | OMultiRemove (ks : list N)
 | OMultiInvalidate (ks : list N)
@@ -401,13 +402,30 @@ Section Cache.
     | None => (s, None)
     end.
 
-  Fixpoint do_multiget (s : state) (ks : list N) (acc : list (N * N)) : state * list (N * N) :=
+  (* AsyncCache::multiget's hit path: TTI refresh + policy.on_access right away *)
+  Definition on_hit_direct (s : state) (k : N) (e : entry) : state :=
+    let i := shard_of c k in
+    let sh := st_sh s i in
+    let m := match c_tti c with
+             | Some _ => aset k (mkE (e_val e) (e_cost e) (e_exp e) (st_now s) (e_timer e) (e_id e)) (s_map sh)
+             | None => s_map sh
+             end in
+    set_sh s i (mkSh m (pcall (s_pol sh) (Access k (e_cost e))) (s_evq sh) (s_batch sh) (s_tick sh) (s_timers sh)).
+
+  Definition do_read_direct (s : state) (k : N) : state * option N :=
+    match find s k with
+    | Some e => if expired c (st_now s) e then (s, None) else (on_hit_direct s k e, Some (e_val e))
+    | None => (s, None)
+    end.
+
+  Fixpoint do_multiget_gen (rd : state -> N -> state * option N)
+           (s : state) (ks : list N) (acc : list (N * N)) : state * list (N * N) :=
     match ks with
     | [] => (s, rev acc)
-    | k :: r => let '(s1, o) := do_read true s k in
+    | k :: r => let '(s1, o) := rd s k in
                 match o with
-                | Some v => do_multiget s1 r (if mem k (map fst acc) then acc else (k, v) :: acc)
-                | None => do_multiget s1 r acc
+                | Some v => do_multiget_gen rd s1 r (if mem k (map fst acc) then acc else (k, v) :: acc)
+                | None => do_multiget_gen rd s1 r acc
                 end
     end.
 
@@ -488,7 +506,8 @@ Section Cache.
     | OInvalidate k => let '(s', r) := do_remove s k in
                        (s', RBool (match r with Some _ => true | None => false end))
     | OClear => (do_clear s, RUnit)
-    | OMultiGet ks => let '(s', l) := do_multiget s ks [] in (s', RPairs l)
+    | OMultiGet ks => let '(s', l) := do_multiget_gen (do_read true) s ks [] in (s', RPairs l)
+    | OMultiGetAsync ks => let '(s', l) := do_multiget_gen do_read_direct s ks [] in (s', RPairs l)
     | OMultiInsert items => (do_multi_insert s items, RUnit)
     | OMultiRemove ks => let '(s', l) := do_multi_remove s ks [] in (s', RPairs l)
     | OMultiInvalidate ks => (fst (do_multi_remove s ks []), RUnit)
